@@ -20,7 +20,10 @@ CASE_TYPE = 'c19_case'
 CHECK = 'c19_check'
 SHOW = 'c19_show'
 SHARD = 75
-RULE = ('layout cases = (poset as comparison matrix, c, dpth) with calc_levels / fcart / multipartite outputs; '
+RULE = ('viz cases = ONE LineVizNx object reused for 2-4 posets (fresh ones or the previous one after POSet.add / del), '
+        'init_mover_per_poset(poset, layout) for both layouts each time (sometimes followed by draw_poset on the Agg '
+        'backend), positions read from visualizer.mover.pos and judged like a layout case of the CURRENT poset; '
+        'layout cases = (poset as comparison matrix, c, dpth) with calc_levels / fcart / multipartite outputs; '
         'mover cases = (direction, distinct dyadic points in a SHUFFLED dictionary insertion order, load route [constructor / '
         'pos setter after construction / after a direction assignment / reload of a loaded mover / '
         'Mover.initialize_pos(poset, fcart|multipartite) on posets stored in arbitrary index order], history of '
@@ -199,7 +202,57 @@ def run_mover(case):
     return list(guarded(go, 20))
 
 
+def run_viz(case):
+    """ONE visualizer object shows a sequence of posets (fresh ones, or the previous one after add / delete);
+    every time init_mover_per_poset(poset, layout) is called for both layouts and visualizer.mover.pos is read"""
+    def go():
+        import matplotlib
+        matplotlib.use('Agg')
+        from fcapy.poset import POSet
+        from fcapy.visualizer import line_layouts as ll
+        from fcapy.visualizer.line_visualizers import LineVizNx
+        viz = LineVizNx()
+        P, leq = None, None
+        outs = []
+        for st in case['steps']:
+            if st.get('mutate') is None:
+                els, leq = leq_of(st)
+                P = POSet(els, leq_func=leq)
+            elif st['mutate'][0] == 'add':
+                e = st['mutate'][1]
+                P.add(frozenset(e) if isinstance(e, list) else e)
+            else:
+                del P[st['mutate'][1]]
+            els_now = list(P.elements)
+            o = {'rel': [[bool(leq(a, b)) for b in els_now] for a in els_now]}
+            try:
+                lv, ld = ll.calc_levels(P)
+                o['levels'] = [int(x) for x in lv]
+                o['ldict'] = [[int(x) for x in ld[k]] for k in range(len(ld))] if sorted(ld) == list(range(len(ld))) else None
+                c = st['c'][0] / st['c'][1]
+                viz.init_mover_per_poset(P, layout='fcart', c=c, dpth=st['dpth'])
+                fc = viz.mover.pos or {}
+                o['fcart'] = [frac_pair(fc[i]) for i in range(len(fc))] if sorted(fc) == list(range(len(fc))) else None
+                viz.init_mover_per_poset(P, layout='multipartite')
+                mu = viz.mover.pos or {}
+                o['multi'] = [frac_pair(mu[i]) for i in range(len(mu))] if sorted(mu) == list(range(len(mu))) else None
+                if st.get('draw') and len(els_now) > 0:
+                    import matplotlib.pyplot as plt
+                    fig, ax = plt.subplots()
+                    try:
+                        viz.draw_poset(P, ax=ax)
+                    finally:
+                        plt.close(fig)
+            except Exception as e:  # noqa
+                o['err'] = op_code(e)
+            outs.append(o)
+        return outs
+    return list(guarded(go, 60))
+
+
 def run_impl(case):
+    if case['kind'] == 'viz':
+        return run_viz(case)
     return run_mover(case) if case['kind'] == 'mover' else run_layout(case)
 
 
@@ -222,7 +275,24 @@ def op_term(op):
     return '(SetDir %s)' % ('true' if op[1] else 'false')
 
 
+def step_term(st, o):
+    if 'err' in o:
+        e = '(LErr %d)' % o['err']
+        levels, ldict, fc, mu = e, '[]', e, e
+    else:
+        levels = '(LOk [%s])' % '; '.join(zl(x) for x in o['levels'])
+        ldict = coq(o['ldict']) if o['ldict'] is not None else '[[99]]'
+        fc = lres(o['fcart'], lambda v: pts([unfrac(p) for p in v]))
+        mu = lres(o['multi'], lambda v: pts([unfrac(p) for p in v]))
+    return 'Build_viz_step %d %s %s %s %s %s %s %s' % (len(o['rel']), coq(o['rel']), q(Fraction(st['c'][0], st['c'][1])),
+                                                      zl(st['dpth']), levels, ldict, fc, mu)
+
+
 def to_coq(case, out):
+    if case['kind'] == 'viz':
+        steps = ('[' + '; '.join(step_term(st, o) for st, o in zip(case['steps'], out[1])) + ']') if out[0] == 'ok' \
+            else '[Build_viz_step 1 [[true]] (q 0 1) (0)%Z (LErr 11) [] (LErr 11) (LErr 11)]'
+        return 'Build_c19_case 2 0 [] (q 0 1) (0)%%Z (LErr 0) [] (LErr 0) (LErr 0) true [] [] [] [] %s' % steps
     if case['kind'] == 'layout':
         if out[0] == 'ok':
             o = out[1]
@@ -235,7 +305,7 @@ def to_coq(case, out):
             rel = case.get('rel') or []
             e = '(LErr %d)' % ERR_KINDS.get(out[1], 11)
             levels, ldict, fc, mu = e, '[]', e, e
-        return ('Build_c19_case 0 %d %s %s %s %s %s %s %s true [] [] [] []'
+        return ('Build_c19_case 0 %d %s %s %s %s %s %s %s true [] [] [] [] []'
                 % (len(rel), coq(rel), q(Fraction(case['c'][0], case['c'][1])), zl(case['dpth']),
                    levels, ldict, fc, mu))
     src0 = out[1]['pos0'] if (out[0] == 'ok' and out[1]['pos0'] is not None) else case.get('pos') or []
@@ -251,7 +321,7 @@ def to_coq(case, out):
     else:
         tr = '[(%d, [])]' % ERR_KINDS.get(out[1], 11)
         ints = '[]'
-    return ('Build_c19_case 1 0 [] (q 0 1) (0)%%Z (LErr 0) [] (LErr 0) (LErr 0) %s %s [%s] %s %s'
+    return ('Build_c19_case 1 0 [] (q 0 1) (0)%%Z (LErr 0) [] (LErr 0) (LErr 0) %s %s [%s] %s %s []'
             % ('true' if case['v'] else 'false', pos0, '; '.join(op_term(o) for o in case['ops']), tr, ints))
 
 
@@ -502,6 +572,47 @@ def exhaustive_mover():
     return out
 
 
+def viz_case(rng, max_n):
+    """2-4 uses of one visualizer: different posets, or the previous poset after add / delete"""
+    steps = []
+    cur = None
+    for k in range(rng.randint(2, 4)):
+        c, dpth = rng.choice(C_CHOICES), rng.choice(DPTH_CHOICES)
+        st = None
+        if cur is not None and rng.random() < 0.5:
+            n_now = cur['n']
+            if cur['carrier'] in ('subsets', 'div') and rng.random() < 0.55:
+                if cur['carrier'] == 'div':
+                    cand = [x for x in range(1, 37) if x not in cur['els']]
+                    e = rng.choice(cand)
+                else:
+                    universe = [list(s) for r in range(5) for s in itertools.combinations(range(4), r)]
+                    cand = [s for s in universe if s not in cur['els']]
+                    e = rng.choice(cand) if cand else None
+                if e is not None:
+                    st = {'mutate': ['add', e]}
+                    cur['els'] = cur['els'] + [e]
+                    cur['n'] += 1
+            if st is None and n_now > 1:
+                i = rng.randrange(n_now)
+                st = {'mutate': ['del', i]}
+                cur['els'] = cur['els'][:i] + cur['els'][i + 1:]
+                cur['n'] -= 1
+        if st is None:
+            for _ in range(20):
+                pc = random_poset_case(rng, max_n)
+                if pc['carrier'] != 'lattice':
+                    break
+            else:
+                pc = layout_case('dag', None, closure(3, [(0, 2), (1, 2)]))
+            st = {'mutate': None, 'carrier': pc['carrier'], 'elements': pc['elements'], 'rel': pc['rel']}
+            cur = {'carrier': pc['carrier'], 'n': len(pc['rel']),
+                   'els': list(pc['elements']) if pc['elements'] is not None else list(range(len(pc['rel'])))}
+        st.update(c=[c.numerator, c.denominator], dpth=dpth, draw=rng.random() < 0.15)
+        steps.append(st)
+    return {'kind': 'viz', 'steps': steps, 'shape': 'viz'}
+
+
 def generate(rng, tier):
     cases = []
     exl, exm = exhaustive_layouts(), exhaustive_mover()
@@ -515,6 +626,8 @@ def generate(rng, tier):
         cases.append(random_poset_case(rng, max_n))
     for k in range(n_mov):
         cases.append(init_mover_case(rng, max_n, max_ops) if k % 5 == 4 else random_mover_case(rng, max_n, max_ops))
+    for _ in range(n_mov // 5):
+        cases.append(viz_case(rng, max_n))
     return cases
 
 
@@ -532,6 +645,8 @@ def _levels_of(rel):
 
 
 def nontrivial(case):
+    if case['kind'] == 'viz':
+        return len(case['steps']) >= 2 and sum(1 for s in case['steps'] if s['mutate'] is None and len(s['rel']) >= 4) >= 1
     if case['kind'] == 'layout':
         rel = case.get('rel')
         if rel is None:
@@ -549,6 +664,13 @@ def nontrivial(case):
 
 
 def stats(case):
+    if case['kind'] == 'viz':
+        d = {'kind': 'viz', 'viz_steps': len(case['steps'])}
+        for s in case['steps']:
+            d['viz_' + ('fresh' if s['mutate'] is None else s['mutate'][0])] = True
+            if s.get('draw'):
+                d['viz_draw'] = True
+        return d
     if case['kind'] == 'layout':
         rel = case.get('rel')
         d = {'kind': 'layout', 'shape': case.get('shape', ''), 'c': '%d/%d' % tuple(case['c']), 'dpth': case['dpth']}
@@ -568,6 +690,15 @@ def stats(case):
 
 def shrink(case):
     out = []
+    if case['kind'] == 'viz':
+        st = case['steps']
+        if len(st) > 1:
+            out.append(dict(case, steps=st[:-1]))
+            for i in range(len(st)):
+                if (i + 1 == len(st) or st[i + 1]['mutate'] is None) and not (i == 0 and st[1]['mutate'] is not None):
+                    out.append(dict(case, steps=st[:i] + st[i + 1:]))
+        out += [dict(case, steps=[dict(s, draw=False) for s in st])] if any(s.get('draw') for s in st) else []
+        return out
     if case['kind'] == 'mover':
         ops = case['ops']
         for i in range(len(ops)):
